@@ -2,11 +2,36 @@ from common import COMMON_TB
 
 CONFIG = {
     "lean_modules": ["SA.Props.C07"],
-    "level_text": "TODO",
-    "level_note": "TODO",
+    "level_text": "Theorems C07_safety / C07_write_ok_delivered / C07_wrap proved in Lean by an inductive invariant over ghost chunk "
+                  "indices of the two queue pairs (out = contiguous suffix hd..n-1, receiver count r with hd <= r <= hd+1, every cached "
+                  "ack is recent), by induction over event histories of ANY length (no bound on the number of packets, so any number "
+                  "of 16-bit wraps) with fates delivered / query lost / answer lost / duplicated / older query replayed, all starting "
+                  "sequence numbers, all mtu > 0. The model is tied to util.InQueue/OutQueue by regenerated facts (MaxCachedChunks, both "
+                  "trimming slice expressions, window loop bounds, ack offset) and by running whole histories on the real queues "
+                  "(real OutQueue.Write in a goroutine, real Append/UpdateAcked/NextChunk/Read) and comparing state + per-exchange trace.",
+    "level_note": "Partial: (1) the theorems are about the queue pair and a queue-level transcription of SendAndReceive/packet; the "
+                  "retry loop, timers, the poll goroutine, the serializer and real UDP are not in the model (finding C07-timeout records "
+                  "that SendAndReceive never recognises a timeout). (2) Hypothesis WellBounded: chunks per Write + replay age + "
+                  "MaxCachedChunks + 3 <= 65536; the excluded point (a query replayed >= 65409 exchanges late) corrupts the stream on "
+                  "the real code and is recorded as open finding C07-late-replay. (3) Eventual delivery is checked by the monitor on "
+                  "the implementation (loss-free tail drains both queues); the Lean statement is C07_eventual_delivery (see notes). "
+                  "Trusted: Lean kernel, the hand-written model SA.Model.Queue and the sampled correspondence, sequential writer per end.",
     "technique": "Lean 4 proof (invariant over ghost chunk indices, induction over event histories) + model/code differential correspondence",
     "components": [{"name": "queue", "timeout": {"quick": 600, "thorough": 1500}}],
-    "rule": "TODO",
-    "trusted_base": COMMON_TB + [],
-    "assumptions": [],
+    "rule": "queue: one op = one whole history on real InQueue/OutQueue pairs of two endpoints; enumerated: 5x5 starting sequence "
+            "numbers {0,127,128,65408,65535} x 8 single-fault patterns, 5 mtus x 7 write-size classes {0,1,mtu-1,mtu,mtu+1,3mtu,3mtu+1}, "
+            "8 wrap-crossing histories (start near 65535, > 2*MaxCachedChunks packets, with and without faults), one 66000-packet "
+            "history from sequence number 0 (thorough: three more of 70000 packets with faults in both directions); random: 300 "
+            "(thorough 1500) protocol histories of <= 300 (500) events with all fates and replays up to 300 exchanges old, 300 (1500) "
+            "adversarial histories with forged packets/acks around next, next+1..next+128, next-1..next-129 (reaching the window, "
+            "future-drain, duplicate and error branches); non-trivial = at least one chunk written and one byte released; "
+            "distinct = distinct op line; class = set of branch/outcome flags reached",
+    "trusted_base": COMMON_TB + ["model SA.Model.Queue hand-written; tied by regenerated facts SA.Gen.c07* and per-history comparison of "
+                                 "queue states (next, out seqs, both acked lists, future, buffer digest), released/accepted digests and "
+                                 "the per-event trace (ack, seq, payload, error class, Write completion)",
+                                 "exchange glue in go/harness/c07_queue.go transcribes SendAndReceive/packet at queue level"],
+    "assumptions": ["one sequential writer per endpoint (a Write is issued after the previous one returned)",
+                    "mtu > 0 (mtu = 0 makes OutQueue.Write loop forever: outside C07)",
+                    "WellBounded: chunks per Write + replay age + MaxCachedChunks + 3 <= 65536",
+                    "fates of the property only: a stale answer delivered to a later query is rejected by the DNS id check (not modelled)"],
 }
